@@ -254,8 +254,9 @@ def machine_shard(args, stats):
 
     tier = args["tier"]
     keys_ = st.integers(0, 2**20)
-    last = {"fail": None}
+    last = {"fail": None, "t_first": None}
     t_end = time.time() + float(args["budget"])
+    shrink_secs = 40 if tier == "quick" else 240
 
     class Machine(RuleBasedStateMachine):
         def __init__(self):
@@ -268,12 +269,26 @@ def machine_shard(args, stats):
                                                                                {"store_dense_svecs": False}]))
         def init(self, cell, ctor):
             self.spec = {"cell": cell, "ctor": ctor, "steps": []}
+            if last["fail"] is not None and time.time() - last["t_first"] > shrink_secs:
+                # shrink budget used up: every further attempt is a no-op, Hypothesis stops shrinking quickly and its final
+                # replay is reported as flaky, which is ignored because the best failing history is already recorded
+                self.h = None
+                return
             self.h = Hist(cell, ctor)
 
         def _do(self, step):
+            if self.h is None:
+                return
             if time.time() > t_end and last["fail"] is None:
                 stats.budget_hit = True
                 return
+            if last["fail"] is not None and time.time() - last["t_first"] > shrink_secs:
+                best = last["fail"][0]
+                k = len(self.spec["steps"])
+                if not (self.spec["cell"] == best["cell"] and self.spec["ctor"] == best["ctor"] and
+                        jsonable(self.spec["steps"] + [step]) == best["steps"][: k + 1]):
+                    self.spec["steps"].append({"op": "skipped_after_shrink_budget"})
+                    return
             self.spec["steps"].append(step)
             try:
                 self.h.apply(step)
@@ -329,8 +344,12 @@ def machine_shard(args, stats):
         def agrees_with_fresh_object(self):
             if self.h is None:
                 return
+            if last["fail"] is not None and time.time() - last["t_first"] > shrink_secs and jsonable(self.spec) != last["fail"][0]:
+                return  # shrink budget used up: only the best failing history found so far still counts
             err = self.err or self.h.check()
             if err:
+                if last["fail"] is None:
+                    last["t_first"] = time.time()
                 last["fail"] = (jsonable(self.spec), err)
                 raise AssertionError(err)
 
@@ -378,6 +397,8 @@ class _HistMachineSub(Sub):
 
 
 SUBCHECKS = [
+    Sub("scale_factor", run=run_history, enumerate=sf_specs, shards={"quick": 4, "thorough": 4}, builds=["omp"],
+        what="deprecated frequency_scale_factor constructor argument: state == fresh object after rebuild-triggering operations"),
     Sub("enum", run=run_history, enumerate=enum_specs, shards={"quick": 16, "thorough": 16}, builds=["omp", "omp", "omp", "serial"],
         budget={"quick": 200, "thorough": 3000}, what="ALL operation sequences up to length 2 (3 in thorough) x three NAC classes; state == fresh object after every step"),
     Sub("machine", run=run_history, custom=machine_shard, examples={"quick": 240, "thorough": 6000}, shards={"quick": 12, "thorough": 16},
